@@ -1,3 +1,4 @@
 -- root of the AkVerif library: models, lemmas, property theorems
 import AkVerif.Model.Util
 import AkVerif.Props.C17
+import AkVerif.Props.C14
